@@ -63,13 +63,16 @@ type BufSpec struct {
 
 // Op is one call into the library (or one action of the simulated client).
 type Op struct {
-	Kind  string    `json:"kind"`
-	D     []string  `json:"d,omitempty"` // Decimals: 32 hex digits, hi then lo
-	I     []int64   `json:"i,omitempty"`
-	S     []string  `json:"s,omitempty"`
-	B     []string  `json:"b,omitempty"` // byte strings, hex
-	Pre   []Preempt `json:"pre,omitempty"`
-	After *int      `json:"after,omitempty"`
+	Kind string    `json:"kind"`
+	D    []string  `json:"d,omitempty"` // Decimals: 32 hex digits, hi then lo
+	I    []int64   `json:"i,omitempty"`
+	S    []string  `json:"s,omitempty"`
+	B    []string  `json:"b,omitempty"` // byte strings, hex
+	Pre  []Preempt `json:"pre,omitempty"`
+	// PreLock: take the processor away right after the Step-th lock
+	// acquisition of this operation (only meaningful for trees that lock).
+	PreLock []Preempt `json:"prelock,omitempty"`
+	After   *int      `json:"after,omitempty"`
 }
 
 // StreamSpec describes a simulated byte stream and its fault plan.
